@@ -8,6 +8,27 @@ NOT_YET = {}
 TB = ("Trusted: Lean kernel (axioms propext, Classical.choice, Quot.sound only; audited by #print axioms on every run); "
       "the hand-written model's correspondence to the code (differential, bounded by the generators whose distribution is in the evidence); ")
 CLAIMS = {
+ "C03": dict(
+  category="proof",
+  text=("Lean 4 theorems (family built by a sub-agent under the common brief, merged and re-checked here): for every well-formed status, decoding the SPEC "
+        "encoding returns exactly that status for Bedrock (unconnected pong), legacy 1.6 / 1.4 / beta 1.8 (kick packets, UTF-16BE), and Java (VarInt-framed JSON) "
+        "for every behaviour of the JSON crate that maps the text to a document representing the status (member order, unknown members, null vs absent do not "
+        "matter); auto-detection for all 32 subsets of variants a server speaks and every way an unspoken variant fails: the result is the first spoken variant in "
+        "the order Java, Bedrock, 1.6, 1.4, b1.8, labelled with it, AutoQuery iff none, and the sockets opened are the prefix of [tcp, udp, tcp, tcp, tcp] up to it. "
+        "Tie + oracle: SPEC-generated statuses (a Lean mirror of serde_json parses/prints the JSON in the driver), mutations, and the opened-socket sequence on the "
+        "real code."),
+  note=TB + "serde_json is a parameter of the model (theorem C03_java quantifies over its behaviour); the driver's JSON mirror is exercised by the differential only.",
+  technique="Lean 4 proof (decode∘encode per format; case analysis over the 32 variant subsets) + SPEC-driven differential"),
+ "C06": dict(
+  category="proof",
+  text=("Lean 4 theorems (family built by a sub-agent, merged and re-checked here): the Unreal 2 string codec for every well-formed string in both encodings "
+        "(Latin-1 and UCS-2, every length 0-127, any trailing bytes): result = the characters sent minus colour escapes, control characters and trailing NULs, "
+        "cursor exactly past the string; server info, rules (every value kept under its key, any cut of the list into datagrams), mutators, players (bot iff "
+        "ping = 0); and the whole query on the SPEC script equals the expected response for all 9 toggle pairs, each section valid / silent / malformed, any "
+        "retry count and any number of datagrams per list. Tie + oracle: every length byte 0-255 in both encodings with and without escapes (quick tier), "
+        "SPEC-generated exchanges and mutations on the real code."),
+  note=TB + "encoding_rs (windows-1252, UTF-16LE without BOM handling) mirrored by Gd.cp1252Decode / unitsOf; the stray-0x01 ambiguity of UCS-2 strings is excluded by the SPEC's domain.",
+  technique="Lean 4 proof (string codec ∀ lengths/encodings; list induction over datagrams) + exhaustive length-byte sweep and SPEC differential"),
  "C19": dict(
   category="other",
   text=("PARTIAL by nature. Proved in Lean 4 for EVERY JSON value (mutual induction over values, arrays and objects): the XML converter only emits element "
